@@ -41,6 +41,15 @@ var Meta = map[string]PropMeta{
 		Quick:     q(400, 50*time.Second),
 		Thorough:  q(20000, 20*time.Minute),
 	},
+	"C04": {
+		Level:     "fault_enumeration",
+		Technique: "deterministic simulation with fault injection: step invariant (old-or-new at every quiescent point = crash point at wire-token granularity), freeze (crash) and connection-cut faults at byte offsets of either direction, leftover-temp check after error returns",
+		Rule:      "one evaluation = one multi-file scenario (new files, replaced files, replaced symlinks, other types in the way; receiver = real client in A1/A3p, real daemon in A2/A3s) run fault-free with the atomicity invariant evaluated at every scheduler step, then re-run once per fault (cut of either direction / freeze of the receiving party at a byte offset drawn per-mille of the direction's volume; 6 faults per scenario quick, 30 thorough). Invariant: every listed path is its complete old content, its complete new content, or absent (absent only if it was absent or the type changes). After a cut: both ends return, connection closed, no non-listed entry may remain. Non-trivial = at least one regular file replaced over different content and > 20 steps",
+		Assumptions: []string{"crash points are quiescent points (receiver parked in Read at byte N); crashes between two syscalls of one goroutine are not sampled", "power-loss durability (un-fsynced data) is not simulated: no storage seam", "freeze + snapshot stands in for SIGKILL of a subprocess (directory contents are what survives a kill)"},
+		Real:      realCommon, Stub: stubCommon,
+		Quick:     q(150, 60*time.Second),
+		Thorough:  q(6000, 25*time.Minute),
+	},
 	"C18": {
 		Level:     "exploration",
 		Technique: "deterministic simulation: seeded scheduler over the capacity/chunking/bias matrix with exact deadlock detection (no enabled transport action while operations are pending), stall faults, 2-32 concurrent sessions against one Server interleaved by one schedule tape; plus free-running sessions under the Go race detector at GOMAXPROCS 1/4/16",
